@@ -109,6 +109,23 @@ def make_pyvis_net(
         network_kwargs = {"cdn_resources": "local"}
     net = network.Network(**network_kwargs)
     verts = list(uni.vertices)
+    try:
+        _fill_pyvis_net(net, verts, rvfunc, refunc)
+    finally:
+        # make sure we remove our temporary attribute, whichever way we leave
+        # (a user-supplied rvfunc / refunc may raise part-way through)
+        for vert in verts:
+            if "__make_pyvis_net_i" in vars(vert):
+                del vert.__make_pyvis_net_i
+
+    return net
+
+
+def _fill_pyvis_net(net, verts, rvfunc, refunc):
+    """
+    Add the nodes and edges for ``verts`` to ``net``.  Helper for
+    :py:func:`make_pyvis_net`, which cleans up the temporary attributes.
+    """
     for i, vert in enumerate(verts):
         if rvfunc:
             net.add_node(i, label=rvfunc(vert))
@@ -161,11 +178,6 @@ def make_pyvis_net(
                 # doesn't exist, so skip it.
                 continue
 
-    # make sure we remove our temporary attribute
-    for vert in verts:
-        del vert.__make_pyvis_net_i
-
-    return net
 
 
 def pyvis_render_customizable(
